@@ -1,20 +1,27 @@
 (* C01 — completeness: the recorded witness satisfies every emitted constraint.
-   PARTIAL.  What is proved, for every prime p, every program, every input vector:
-     if at the moment each constraint v * w = y is emitted the *values* of v, w, y satisfy it modulo p,
-     then the FINAL recorded witness satisfies every emitted constraint as a constraint on the wires
-     (well-scopedness of the command list, needed for that, is proved for all programs in Proofs/Frame.v).
-   The hypothesis is computable ([vjustb]) and is evaluated in-kernel on every generated case by the
-   harness; it is the integer-level identity that pysnark's add_constraint itself checks at run time when
-   unguarded.  What is missing for the full statement: the hypothesis for ALL programs, i.e. one value-identity
-   lemma per emitting gadget (mul, check_zero, assert_nonzero, and the callers of the guarded add_constraint)
-   and an induction over the generator.  The direct oracle evaluates every recorded constraint of the real
-   code on the recorded witness for every generated case. *)
+   PROVED for the model, for every prime p, every configuration, every input vector and EVERY program that does not itself
+   switch error checking off (no ignore_errors() statement), run with error checking on -- including programs whose run ends
+   in an exception (the constraints emitted before it hold), guarded regions with false guards at any nesting depth, lazily
+   evaluated branches and the block API (_if/_elif/_else, _while/_breakif, _range):
+       C01_completeness.
+   The proof is a weakest-precondition calculus over the generator monad (Proofs/Wp.v, sound for run + interp), one lemma
+   per emitting gadget under the invariant "error suppression on => the guard evaluates to 0" (Proofs/GadgetsOK.v), closure
+   under the operator dispatch and the statement layer (ApiOK.v, ProgOK.v), and the transfer from values at emission time to
+   wires on the final witness (Meta.sat_final; well-scopedness of every command list is Frame.run_scoped).
+   With error checking off (ignore_errors(True), used for key generation without valid inputs) the statement is false by
+   design; C01_completeness_partial remains for such runs: it reduces the claim to a computable per-run check. *)
 From Coq Require Import ZArith List Znumtheory Lia.
 From PySnark.Base Require Import FieldZ.
 From PySnark.Model Require Import Lc Sym Gadgets Api Prog.
-From PySnark.Proofs Require Import Meta FieldOk Frame ProgFrame.
+From PySnark.Proofs Require Import Meta FieldOk Frame ProgFrame ProgOK Complete.
 Import ListNotations.
 Open Scope Z_scope.
+
+Theorem C01_completeness : forall (p : Z) (c : cfg) (pr : list stmt) (ins : list Z),
+  prime p -> forallb noign pr = true ->
+  let t := model_run (p:=p) c pr ins false in
+  Forall (holds (p:=p) (wval (st t))) (cons t).
+Proof. intros p c pr ins Hp N. exact (program_complete (field_ok_prime p Hp) c pr ins N). Qed.
 
 Theorem C01_completeness_partial : forall (p : Z) (c : cfg) (pr : list stmt) (ins : list Z) (ig : bool),
   prime p ->
@@ -37,4 +44,7 @@ Example C01_example :
   scoped_cmds 0 0 (gen_prog (p:=65537) c ex_prog) = true /\ vjustb [3; 7] false (gen_prog (p:=65537) c ex_prog) (Sym.init) = true.
 Proof. vm_compute. repeat split; reflexivity. Qed.
 
+Example C01_example_noign : forallb noign ex_prog = true. Proof. reflexivity. Qed.
+
+Print Assumptions C01_completeness.
 Print Assumptions C01_completeness_partial.
